@@ -582,10 +582,10 @@ func domain(labels []string, extra map[string][]any, max int) map[string][]any {
 		seen := map[string]bool{}
 		var vals []any
 		add := func(v any) {
+			if x, isNum := v.(float64); isNum && x == 0 {
+				v = 0.0 // the constant for a stored -0.0 is 0 (they are equal; the query must find both)
+			}
 			if k := js(v) + fmt.Sprintf("%T", v); !seen[k] {
-				if x, isNum := v.(float64); isNum && x == 0 && math.Signbit(x) {
-					return // -0.0 as a constant equals 0.0 as a constant for the reference; kept out of the domain
-				}
 				seen[k] = true
 				vals = append(vals, v)
 			}
@@ -663,7 +663,7 @@ func grammarA(dom map[string][]any, allPairs bool) []item {
 			b := pa[j]
 			items = append(items, item{Q: query{G: [][]atom{{a, b}}}}, item{Q: query{G: [][]atom{{a}, {b}}}})
 			if (i+j)%5 == 0 { // ordered by one of the fields: index range scan + residual filter
-				items = append(items, item{Q: query{G: [][]atom{{a, b}}, O: []ordc{{a.F, false}, {"_id", false}}}}, item{Q: query{G: [][]atom{{a}, {b}}, O: []ordc{{b.F, true}, {"_id", true}}}})
+				items = append(items, item{Q: query{G: [][]atom{{a, b}}, O: []ordc{{a.F, false}}}}, item{Q: query{G: [][]atom{{a}, {b}}, O: []ordc{{b.F, true}}}})
 			}
 		}
 	}
@@ -683,28 +683,31 @@ func grammarA(dom map[string][]any, allPairs bool) []item {
 	return items
 }
 
-// stateGrammar: the sweep run after every history of part B: per field and constant of the configuration's domain
-// (+ null) EQ unordered (secondary index by equality), LT ordered ascending and GE ordered descending (index range
-// scans), the other operators on one constant, LIKE, every field as sort key, AND / OR pairs over 6 comparisons.
+// stateGrammar: the sweep run after every history of part B. A single-column index serves EQ (unordered) and any
+// comparison under ORDER BY that column alone (ORDER BY f, _id is sorted in memory from a primary scan), hence: per
+// field and constant of the configuration's domain (+ null) EQ unordered, LT ordered by the field ascending, GE ordered
+// by it descending; NE / LE / GT on one constant; LIKE; every field alone as ascending and descending sort key; two
+// total orders (paged); AND / OR pairs over 6 comparisons, a third of them ordered by a field.
 func stateGrammar(dom map[string][]any) []item {
 	one := func(a atom) [][]atom { return [][]atom{{a}} }
 	items := []item{{Q: query{}, Light: true}}
 	var pa []atom
 	for fi, f := range fields {
 		n := f.Name
-		asc, desc := []ordc{{n, false}, {"_id", false}}, []ordc{{n, true}, {"_id", true}}
+		asc, desc := []ordc{{n, false}}, []ordc{{n, true}}
 		for _, v := range append(append([]any{}, dom[n]...), nil) {
 			items = append(items, item{Q: query{G: one(atom{n, EQ, v})}, Light: true},
 				item{Q: query{G: one(atom{n, LT, v}), O: asc}, NoCount: true}, item{Q: query{G: one(atom{n, GE, v}), O: desc}, NoCount: true})
 		}
 		if v := dom[n]; len(v) > 0 {
-			items = append(items, item{Q: query{G: one(atom{n, NE, v[len(v)/2]})}}, item{Q: query{G: one(atom{n, LE, v[0]})}}, item{Q: query{G: one(atom{n, GT, v[0]})}})
+			items = append(items, item{Q: query{G: one(atom{n, NE, v[len(v)/2]})}}, item{Q: query{G: one(atom{n, LE, v[0]}), O: desc}}, item{Q: query{G: one(atom{n, GT, v[0]}), O: asc}})
 			if len(pa) < 6 {
 				pa = append(pa, atom{n, EQ, v[0]}, atom{n, []protomodel.ComparisonOperator{GE, LT, NE}[fi%3], v[len(v)/2]})
 			}
 		}
-		items = append(items, item{Q: query{O: asc}, NoCount: true, Paging: fi == 0}, item{Q: query{O: desc}, NoCount: true, Paging: fi == 1})
+		items = append(items, item{Q: query{O: asc}, NoCount: true, Light: true}, item{Q: query{O: desc}, NoCount: true})
 	}
+	items = append(items, item{Q: query{O: []ordc{{"n", false}, {"_id", false}}}, NoCount: true, Paging: true}, item{Q: query{O: []ordc{{"s", true}, {"_id", true}}}, NoCount: true, Paging: true})
 	for _, a := range []atom{{"s", LIKE, "a%"}, {"s", NLIK, "a%"}, {"s", LIKE, "%"}, {"s", LIKE, "_"}} {
 		items = append(items, item{Q: query{G: one(a)}})
 	}
@@ -713,8 +716,7 @@ func stateGrammar(dom map[string][]any) []item {
 			b := pa[j]
 			items = append(items, item{Q: query{G: [][]atom{{a, b}}}}, item{Q: query{G: [][]atom{{a}, {b}}}})
 			if (i+j)%3 == 0 {
-				items = append(items, item{Q: query{G: [][]atom{{a, b}}, O: []ordc{{a.F, false}, {"_id", false}}}, NoCount: true},
-					item{Q: query{G: [][]atom{{a}, {b}}, O: []ordc{{b.F, true}, {"_id", true}}}, NoCount: true})
+				items = append(items, item{Q: query{G: [][]atom{{a, b}}, O: []ordc{{a.F, false}}}, NoCount: true}, item{Q: query{G: [][]atom{{a}, {b}}, O: []ordc{{b.F, true}}}, NoCount: true})
 			}
 		}
 	}
